@@ -154,44 +154,77 @@ def rule_own(chk):
     problems = []
     if any(n.kind in ("break", "return") for n in region):
         problems.append("the scan over the messages can stop early")
-    # status variable
-    stv = None
-    for n in region:
-        if isinstance(n.ast, ast.Assign) and isinstance(n.ast.value, ast.Call) and isinstance(n.ast.value.func, ast.Attribute) and n.ast.value.func.attr == "get" \
-                and isinstance(n.ast.value.func.value, ast.Name) and n.ast.value.func.value.id == lv and ctx.try_fold(fm, n.ast.value.args[0]) == (True, AS):
-            stv = n.ast.targets[0].id
-    if stv is None:
-        problems.append("fromMessages does not read %s of same-level messages" % AS)
-    else:
-        start_as = [n for n in region if isinstance(n.ast, ast.Assign) and isinstance(n.ast.targets[0], ast.Name) and n.ast.targets[0].id == "startMessage"]
-        end_as = [n for n in region if isinstance(n.ast, ast.Assign) and isinstance(n.ast.targets[0], ast.Name) and n.ast.targets[0].id == "endMessage"]
+    from .. import exprs as X
+    env = X.single_assignments(fm)
 
-        def guarded_by(n, pred):
-            return any(t.kind == "test" and pred(t.exprs[0]) and lab == "true" for t, lab in cfg.guards_of(n))
-        if not start_as or not all(guarded_by(n, lambda e: isinstance(e, ast.Compare) and isinstance(e.ops[0], ast.Eq) and unparse(e.left) == stv and ctx.try_fold(fm, e.comparators[0]) == (True, STARTED)) for n in start_as):
-            problems.append("the start message is not the same-level message with status %r" % STARTED)
-        if not end_as or not all(guarded_by(n, lambda e: isinstance(e, ast.Compare) and isinstance(e.ops[0], ast.In) and unparse(e.left) == stv and ctx.try_fold(fm, e.comparators[0])[1] is not None
-                                            and set(ctx.try_fold(fm, e.comparators[0])[1]) == {SUCC, FAIL}) for n in end_as):
-            problems.append("the end message is not the same-level message whose status is one of the two completed statuses")
+    def is_status(x):
+        """x reads the action_status of the loop's message"""
+        if isinstance(x, ast.Call) and isinstance(x.func, ast.Attribute) and x.func.attr == "get" and isinstance(x.func.value, ast.Name) and x.func.value.id == lv and x.args:
+            return ctx.try_fold(fm, x.args[0]) == (True, AS)
+        return isinstance(x, ast.Subscript) and isinstance(x.value, ast.Name) and x.value.id == lv and ctx.try_fold(fm, x.slice) == (True, AS)
+
+    def guard_facts(n):
+        """(inlined test expression with leading nots stripped, label) for every test dominating n"""
+        out = []
+        for t, lab in cfg.guards_of(n):
+            if t.kind == "test":
+                e, lab2 = X.strip_not(X.inline(fm, t.exprs[0], env), lab)
+                vals = e.values if isinstance(e, ast.BoolOp) and isinstance(e.op, ast.And) and lab2 == "true" else [e]
+                out += [(v, lab2) for v in vals]
+        return out
+
+    def is_started(e, lab):
+        op = X.compare_of(e, is_status, lambda x: ctx.try_fold(fm, x) == (True, STARTED))
+        return (op is ast.Eq and lab == "true") or (op is ast.NotEq and lab == "false")
+
+    def is_completed(e, lab):
+        if isinstance(e, ast.Compare) and len(e.ops) == 1 and is_status(e.left):
+            ok, v = ctx.try_fold(fm, e.comparators[0])
+            if ok and v is not None and not isinstance(v, str):
+                try:
+                    same = set(v) == {SUCC, FAIL}
+                except TypeError:
+                    same = False
+                return same and ((isinstance(e.ops[0], ast.In) and lab == "true") or (isinstance(e.ops[0], ast.NotIn) and lab == "false"))
+        return False
+    # which locals end up as the action's start and end message: the first two arguments of the constructor call returned at the end
+    ctor = [v for _r, v in X.returns(fm) if isinstance(v, ast.Call) and len(v.args) >= 3]
+    chk.need(len(ctor) == 1 and all(isinstance(a, ast.Name) for a in ctor[0].args[:2]), "fromMessages: `return <class>(start, end, children)` not found")
+    start_name, end_name = ctor[0].args[0].id, ctor[0].args[1].id
+    start_as = [n for n in region if isinstance(n.ast, ast.Assign) and isinstance(n.ast.targets[0], ast.Name) and n.ast.targets[0].id == start_name]
+    end_as = [n for n in region if isinstance(n.ast, ast.Assign) and isinstance(n.ast.targets[0], ast.Name) and n.ast.targets[0].id == end_name]
+    chk.need(start_as and end_as, "fromMessages: the start/end message variables are not assigned inside the scan over the messages")
+    if not all(isinstance(n.ast.value, ast.Name) and n.ast.value.id == lv and any(is_started(e, lab) for e, lab in guard_facts(n)) for n in start_as):
+        problems.append("the start message is not the same-level message with status %r" % STARTED)
+    if not all(isinstance(n.ast.value, ast.Name) and n.ast.value.id == lv and any(is_completed(e, lab) for e, lab in guard_facts(n)) for n in end_as):
+        problems.append("the end message is not the same-level message whose status is one of the two completed statuses")
     # level arithmetic that separates own messages from direct child actions
     lparam = fm.params[2]
+    TL = p.fold_global(p.mod("_message"), "TASK_LEVEL_FIELD")
+
+    def norm(e):
+        """source text of e with temporaries substituted, the message's level written <L> and the start level's prefix <P>"""
+        e = X.inline(fm, e, env)
+
+        class R(ast.NodeTransformer):
+            def visit_Subscript(self, node):
+                self.generic_visit(node)
+                if isinstance(node.value, ast.Name) and node.value.id == lv and ctx.try_fold(fm, node.slice) == (True, TL):
+                    return ast.Name(id="<L>", ctx=ast.Load())
+                if isinstance(node.value, ast.Name) and node.value.id == lparam and isinstance(node.slice, ast.Slice) and node.slice.lower is None \
+                        and unparse(node.slice.upper) == "-1":
+                    return ast.Name(id="<P>", ctx=ast.Load())
+                return node
+        return unparse(R().visit(e))
     conj = set()
     for t in region:
         if t.kind == "test":
-            e = t.exprs[0]
+            e = X.inline(fm, t.exprs[0], env)
             vals = e.values if isinstance(e, ast.BoolOp) and isinstance(e.op, ast.And) else [e]
             for v in vals:
-                conj.add(unparse(v))
-    pref = None
-    for n in cfg.live:
-        if isinstance(n.ast, ast.Assign) and unparse(n.ast.value) == "%s[:-1]" % lparam:
-            pref = n.ast.targets[0].id
-    lvl = None
-    for n in region:
-        if isinstance(n.ast, ast.Assign) and isinstance(n.ast.value, ast.Subscript) and unparse(n.ast.value).startswith(lv + "["):
-            lvl = n.ast.targets[0].id
-    want = {"%s[:-1] == %s" % (lvl, pref), "len(%s) == len(%s) + 2" % (lvl, pref), "%s[:-2] == %s" % (lvl, pref), "%s[-1] == 1" % lvl}
-    if pref is None or lvl is None or not want <= conj:
+                conj.add(norm(v))
+    want = {"<L>[:-1] == <P>", "len(<L>) == len(<P>) + 2", "<L>[:-2] == <P>", "<L>[-1] == 1"}
+    if not want <= conj:
         problems.append("own messages / direct child starts are not told apart by `level[:-1] == prefix` and `len == len(prefix)+2, level[:-2] == prefix, level[-1] == 1` (found %s)" % sorted(c for c in conj if "[" in c or "len" in c))
     # other tasks skipped
     UU = p.fold_global(p.mod("_message"), "TASK_UUID_FIELD")
